@@ -31,8 +31,8 @@ EXPECT = {
     "3938353": ("D3 self-loops restored in map order", ["C07"]),
     "b4491b6": ("D3 pre-pass reverses in map order", ["C07"]),
     "c808e53": ("D18 incident edge chosen in map order", ["C07"]),
-    "6a99d58": ("D8c auxiliary nodes keyed by ID string", ["C08"]),
-    "f0fbeb0": ("D8a no normalize after hbalance", ["C04"]),
+    "6a99d58": ("D8c auxiliary nodes keyed by ID string", ["C08", "C01"]),
+    "f0fbeb0": ("D8a no normalize after hbalance", ["C04", "C01"]),
     "e6c38e1": ("D8b centre coordinates used as left sides", ["C04"]),
     "36c615b": ("D12 sink coloring separation", ["C04"]),
     "93feb3f": ("D10 ortho bend below the node", ["C06"]),
